@@ -71,7 +71,7 @@ Section Spec.
     | EOdo k _ _ _ _ => k = KSE2 \/ k = KSE3                       (* no R^2 / R^3 odometry edges *)
     | ELmk ko _ _ _ _ _ off oid =>
         (ko = KSE2 /\ is_ident_se2 num eq0 off = true)             (* EDGE_SE2_XY has no offset field *)
-        \/ (ko = KSE3 /\ oid <> None)                              (* EDGE_SE3_TRACKXYZ names a parameter id *)
+        \/ ko = KSE3                      (* EDGE_SE3_TRACKXYZ; its offset_id and offset are constrained by offsets_ok *)
     | ECus _ _ _ _ => True                                         (* written by its own to_g2o, or skipped *)
     end.
   (* every SE(3) landmark edge has an offset_id, and edges (and the dictionary) sharing an id agree on the offset *)
